@@ -254,6 +254,11 @@ def run(ctx):
             per_arg.append(sorted(fs))
             used |= fs
         seen_setters[name] = per_arg
+        for a in t["args"][1:]:
+            roots_, via_ = dt.transforming_calls(main, a)
+            alter = sorted({c_["call"]["name"] for c_ in via_} - {"clone", "to_string", "to_owned", "as_str", "as_ref", "as_deref", "deref", "borrow", "into", "from", "as_path", "as_os_str", "map", "unwrap_or", "or", "or_else", "zip", "cloned", "parse", "unwrap_or_else", "expect", "unwrap", "and_then", "as_slice", "to_path_buf", "into_os_string", "clone_from", "parse_from", "try_parse", "get_matches"})
+            ctx.check(not alter, "R20.4", main.loc(t["ln"]), f"main|{name}|value-unchanged", f"CLI -> Config::{name}: the flag's value passes through {alter} before reaching the library: the CLI then generates something else than the library call with the same option value",
+                      instance=f"Config::{name}: flag value handed over unchanged", nontrivial=False)
     for name, exp in spec["setters"].items():
         got = seen_setters.get(name)
         ctx.check(got == exp["args"], "R20.4", main.loc(), f"main|{name}",
@@ -335,6 +340,15 @@ def run(ctx):
                     if isinstance(e, dict) and "f" in e and e.get("n"):
                         ws.add(e["n"])
                         break
+            # a mutable borrow of a field handed to a call writes it as well (`self.version.get_or_insert_with(..)`)
+            r_ = s_["r"]
+            if r_.get("mut") and "ref" in r_ and not isinstance(r_["ref"], int) and r_["ref"]["l"] == 1:
+                used_by_call = any(uj == "T" and "call" in it for _, uj, it in dt.uses_of_local(b, place_local(s_["d"])))
+                if used_by_call:
+                    for e in r_["ref"]["p"]:
+                        if isinstance(e, dict) and "f" in e and e.get("n"):
+                            ws.add(e["n"])
+                            break
         writes_by[b.name] = ws
     clash = sorted((a1, a2, sorted(writes_by[a1] & writes_by[a2])) for a1 in writes_by for a2 in writes_by if a1 < a2 and writes_by[a1] & writes_by[a2])
     ctx.check(not clash, "R20.7", "conjure-codegen/src/lib.rs", "config|setters-independent", f"Config setters write overlapping fields {clash}: the generated output then depends on the order in which equivalent options are applied (library caller vs CLI)",
